@@ -33,6 +33,31 @@ Section CapHistory.
     - rewrite Hh. apply nth_error_snoc.
   Qed.
 
+  (* frames: a vector that moves to a fresh block, or obtains its first one, leaves every other
+     block and every other handle exactly as they were, and the fresh block's index is new *)
+  Lemma moved_frame s s' v b nbl : moved s s' v b nbl ->
+    (forall b', b' <> b -> (b' < List.length (heap s))%nat -> nth_error (heap s') b' = nth_error (heap s) b') /\
+    (forall w, w <> v -> flat (nth_error (vecs s') w) = flat (nth_error (vecs s) w)) /\
+    List.length (heap s') = S (List.length (heap s)).
+  Proof.
+    intros [Hh Hv _]. split; [|split].
+    - intros b' Hne Hlt. rewrite Hh. rewrite nth_error_app1 by (rewrite list_set_length; exact Hlt).
+      apply list_set_other. congruence.
+    - intros w Hw. rewrite Hv. apply list_put_other. congruence.
+    - rewrite Hh, app_length, list_set_length. simpl. lia.
+  Qed.
+
+  Lemma allocated_frame s s' v nbl : allocated s s' v nbl ->
+    (forall b', (b' < List.length (heap s))%nat -> nth_error (heap s') b' = nth_error (heap s) b') /\
+    (forall w, w <> v -> flat (nth_error (vecs s') w) = flat (nth_error (vecs s) w)) /\
+    List.length (heap s') = S (List.length (heap s)).
+  Proof.
+    intros [Hh Hv _]. split; [|split].
+    - intros b' Hlt. rewrite Hh. apply nth_error_app1. exact Hlt.
+    - intros w Hw. rewrite Hv. apply list_put_other. congruence.
+    - rewrite Hh, app_length. simpl. lia.
+  Qed.
+
   Lemma max_align_pow2 : is_pow2 (max_align cfg) = true.
   Proof.
     destruct Hcfg as (_ & Hp & _). unfold max_align, HEADER_ALIGN.
